@@ -157,7 +157,9 @@ SEvPathFailed(node, pid, hash, blamed, initial, path) ==
 
 (* ---- the node's manager is persisted / the node restarts from that snapshot.             *)
 SSave(node) ==
-  /\ snap' = [snap EXCEPT ![node] = [p \in {q \in Pids : pay[q].node = node} |-> [term |-> pay[p].term, owed |-> pay[p].owed]]]
+  /\ snap' = [snap EXCEPT ![node] = [p \in {q \in Pids : pay[q].node = node} |->
+                                      \* while a repetition is pending the restarted manager does not know the event was handled
+                                      [term |-> IF pay[p].rep THEN "none" ELSE pay[p].term, owed |-> pay[p].owed]]]
   /\ UNCHANGED <<pay, ht, pidOf, released, failSeen, spent, feeKnown, initBal, gotAdd>>
 
 SRestart(node) ==
